@@ -1089,6 +1089,20 @@ func (c *cluster) handleNodeAction(nodeAction nodeAction) error {
 	return nil
 }
 
+// enqueueNodeAction hands a join or leave to the resize loop. The queue is
+// bounded and is drained by that loop, which needs c.mu for every step, so
+// the callers, which hold c.mu, must not wait for room themselves.
+func (c *cluster) enqueueNodeAction(a nodeAction) {
+	c.wg.Add(1)
+	go func() {
+		defer c.wg.Done()
+		select {
+		case c.joiningLeavingNodes <- a:
+		case <-c.closing:
+		}
+	}()
+}
+
 func (c *cluster) setStateAndBroadcast(state string) error { // nolint: unparam
 	c.mu.Lock()
 	defer c.mu.Unlock()
@@ -1849,7 +1863,7 @@ func (c *cluster) nodeJoin(node *Node) error {
 	if err := c.unprotectedSetStateAndBroadcast(ClusterStateResizing); err != nil {
 		return errors.Wrap(err, "broadcasting state")
 	}
-	c.joiningLeavingNodes <- nodeAction{node, resizeJobActionAdd}
+	c.enqueueNodeAction(nodeAction{node, resizeJobActionAdd})
 
 	return nil
 }
@@ -1903,7 +1917,7 @@ func (c *cluster) nodeLeave(nodeID string) error {
 	if err := c.unprotectedSetStateAndBroadcast(ClusterStateResizing); err != nil {
 		return errors.Wrap(err, "broadcasting state")
 	}
-	c.joiningLeavingNodes <- nodeAction{node: &Node{ID: nodeID}, action: resizeJobActionRemove}
+	c.enqueueNodeAction(nodeAction{node: &Node{ID: nodeID}, action: resizeJobActionRemove})
 
 	return nil
 }
